@@ -139,7 +139,7 @@ int main(int argc, char** argv) {
             sess::Session rest = sess::genSession(c, gOpts, cfg);
             for (auto& x : rest.cmds) s.cmds.push_back(x);
             runSession("sessions", s, st, 1);
-        });
+        }, -1, 20);
         rc = vh::finish();
     }
     if (system(("rm -rf " + gWork).c_str())) {}
